@@ -69,7 +69,7 @@ def expected_params(segments):
 SAFE_WORDS = ["a", "Song", "x y", "0.000=120.000", "dance-single", "Hard", "12", "a#b", "=", ",", "0000", "1001",
               "猫", "é", "テスト", "é", "*", "x.png", "gfx/bn.png", "\t", " "]
 KEYS_SM = ["TITLE", "ARTIST", "title", "Artist", "OFFSET", "BPMS", "bpms", "STOPS", "FREEZES", "ATTACKS", "attacks",
-           "DISPLAYBPM", "DisplayBpm", "BGCHANGES", "ANIMATIONS", "FOO", "foo", "X", "SELECTABLE", "MUSIC", "Banner"]
+           "DISPLAYBPM", "DisplayBpm", "BGCHANGES", "ANIMATIONS", "FOO", "foo", "X", "SELECTABLE", "MUSIC", "Banner", "VERSION", "version"]
 KEYS_SSC_CHART = ["CHARTNAME", "STEPSTYPE", "stepstype", "DESCRIPTION", "DIFFICULTY", "METER", "meter", "RADARVALUES",
                   "CREDIT", "BPMS", "OFFSET", "DISPLAYBPM", "displaybpm", "ATTACKS", "FOO", "foo", "MUSIC", "LABELS"]
 
